@@ -1,12 +1,12 @@
 package main
 
 import (
-	"go/token"
 	"fmt"
-	"strconv"
+	"go/token"
 	"go/types"
 	"regexp"
 	"sort"
+	"strconv"
 	"strings"
 
 	"golang.org/x/tools/go/ssa"
@@ -40,7 +40,7 @@ var signerTable = map[string]string{
 var msgModules = []string{"x/deployment/types", "x/market/types", "x/provider/types", "x/audit/types", "x/cert/types"}
 
 func checkC06(c *Check) {
-	c.Explanation = "Decided for every message type, handler and store iterator: (R1) each sdk.Msg's GetSigners returns exactly one address parsed from the field the protocol assigns (table frozen from the property text; new message types without a row fail); (R2) ValidateBasic validates that field as a bech32 address (directly or via the id's Validate); (R3) escrow debits only the signer / recorded owner; (R4) every id handed by a Msg handler to a keeper or escrow mutator derives from the message's own id (through id projections, records fetched by it, or iterators scoped by it); (R5) key layouts extracted by abstract interpretation of the key builders: every parent-scoped iterator prefix is an initial run of whole segments of the full key and ends in a fixed-width or constant (terminator) segment, record kinds have distinct leading constants."
+	c.Explanation = "Decided for every message type, handler and store iterator: (R1) each sdk.Msg's GetSigners returns exactly one address parsed from the field the protocol assigns (table frozen from the property text; new message types without a row fail); (R2) ValidateBasic validates that field as a bech32 address (directly or via the id's Validate); (R3) escrow debits only the signer / recorded owner; (R4) every id handed by a Msg handler to a keeper or escrow mutator derives from the message's own id (through id projections, records fetched by it, or iterators scoped by it); (R5) key layouts extracted by abstract interpretation of the key builders: every parent-scoped iterator prefix is an initial run of whole segments of the full key and ends in a fixed-width or constant (terminator) segment, record kinds have distinct leading constants. The market's escrow hooks establish the deployment scope of the account id before acting."
 	c.NotDecided = "effects on other accounts' bank balances inside the SDK (covered only through C01-R1 + R3); that the ante handler enforces GetSigners (assumption A1)"
 	l := c.L
 
@@ -133,6 +133,7 @@ func checkC06(c *Check) {
 
 	// ---- R6 escrow payment id <-> lease id: writer and reader agree position by position
 	c.escrowIDCodec("R6")
+	c.escrowHookScope("R6")
 	// ---- R6 (cont.) "the record it names": two ids are equal only if every field is (the Equals methods the handlers,
 	// the inventory and the bid engine identify records with)
 	c.idEqualsComplete("R6")
@@ -279,6 +280,30 @@ func (c *Check) idProvenance() {
 								})
 							}
 							if okMap && nput > 0 {
+								continue
+							}
+						}
+						if strings.Contains(s, "make:[]") {
+							// an element of a slice the handler made and filled by index: it is what was stored
+							okSl, nput := true, 0
+							for _, g2 := range fnAndClosures(fn) {
+								eachInstr(g2, func(i ssa.Instruction) {
+									st, isSt := i.(*ssa.Store)
+									if !isSt {
+										return
+									}
+									ia, isIA := st.Addr.(*ssa.IndexAddr)
+									if !isIA {
+										return
+									}
+									if _, isMk := ia.X.(*ssa.MakeSlice); !isMk || !strings.Contains(s, Sym(ia.X)+"[") {
+										return
+									}
+									nput++
+									okSl = okSl && derivesFromMsg(Sym(st.Val), paramName(fn.Params[2]))
+								})
+							}
+							if okSl && nput > 0 {
 								continue
 							}
 						}
@@ -809,5 +834,44 @@ func (c *Check) idEqualsComplete(rule string) {
 			}
 		}
 		c.Ob(rule, sp[1]+".Equals compares every field of the two ids", fn.Pos(), why == "", why)
+	}
+}
+
+// escrowHookScope: bid deposits and deployment funds live in one escrow keeper, told apart by the account id's scope;
+// a bid account's external id (owner/dseq/gseq/oseq/provider) starts with the text of a deployment id. The market's
+// escrow hooks must therefore establish the deployment scope before they act on what the external id names: somewhere
+// in the code a hook runs before its first keeper call, the Scope field is compared with the deployment scope.
+func (c *Check) escrowHookScope(rule string) {
+	l := c.L
+	for _, name := range []string{"OnEscrowAccountClosed", "OnEscrowPaymentClosed"} {
+		fn := l.Func("x/market/hooks", "hooks", name)
+		c.Analysed(fnName(fn))
+		seen := map[*ssa.Function]bool{fn: true}
+		work := []*ssa.Function{fn}
+		found := false
+		for len(work) > 0 {
+			g := work[0]
+			work = work[1:]
+			eachInstr(g, func(i ssa.Instruction) {
+				switch x := i.(type) {
+				case *ssa.BinOp:
+					if x.Op != token.EQL && x.Op != token.NEQ {
+						return
+					}
+					for _, pr := range [][2]ssa.Value{{x.X, x.Y}, {x.Y, x.X}} {
+						if s, ok := strConst(pr[1]); ok && s == "deployment" && strings.HasSuffix(Sym(pr[0]), ".Scope") {
+							found = true
+						}
+					}
+				case ssa.CallInstruction:
+					h := x.Common().StaticCallee()
+					if h != nil && h.Blocks != nil && !seen[h] && strings.HasPrefix(fnPkgPath(h), akash+"/x/") && len(seen) < 40 {
+						seen[h] = true
+						work = append(work, h)
+					}
+				}
+			})
+		}
+		c.Ob(rule, name+" acts only on accounts of the deployment scope", fn.Pos(), found, "nothing the hook runs compares the account id's Scope with the deployment scope: the external id of a bid deposit account reads as a deployment (or lease) id and the hook closes records the closed account has nothing to do with")
 	}
 }
